@@ -8,7 +8,7 @@
 
    This file contains only the property theorems; proofs are in Proofs/ZlibFile*.v. *)
 From Coq Require Import ZArith List.
-Require Import JV.Base.PyPrelude JV.Model.ZlibFile JV.Proofs.ZlibFile JV.Proofs.ZlibFileC14.
+Require Import JV.Base.PyPrelude JV.Model.ZlibFile JV.Proofs.ZlibFile JV.Proofs.ZlibFileC14 JV.Proofs.ZlibFileOps.
 Import ListNotations.
 Open Scope Z_scope.
 
@@ -56,3 +56,17 @@ Theorem C14_trailing_old_refuted : forall os o u ex fuel,
   run_old fuel (file_of (Complete os o u ex)) [ORead (-1)] (init_state (file_of (Complete os o u ex))) = None.
 Proof. exact trailing_old_spins. Qed.
 Print Assumptions C14_trailing_old_refuted.
+
+(* _read_bytes(fp, size) with fp a BinaryZlibFile (any script: truncated, trailer) in a state related to the
+   abstract stream at position p: exactly the next `size` bytes when the stream holds them, ValueError with
+   the stream consumed to its end when it does not -- never a short, a wrong or a missing answer; two turns
+   of the loop suffice.  This is how a truncated compressed file with array data fails. *)
+Theorem C14_read_bytes_zfile : forall s F st rs sz fuel,
+  (fuel_for (file_of s) <= F)%nat -> Sim s st rs -> rclosed rs = false -> 0 <= sz -> (2 <= fuel)%nat ->
+  exists st',
+    read_bytes rstate (zread F) fuel sz st =
+      Some (if sz <=? len (payload s) - rpos rs then Ok (zfirstn sz (zskipn (rpos rs) (payload s)))
+            else Raise ValueError, st') /\
+    Sim s st' (mkRef (if sz <=? len (payload s) - rpos rs then rpos rs + sz else len (payload s)) false).
+Proof. exact read_bytes_zfile. Qed.
+Print Assumptions C14_read_bytes_zfile.
